@@ -259,7 +259,8 @@ def _batches(it, size):
 
 
 MAL_KINDS = ['del', 'dup', 'swap', 'unbalanced_open', 'unbalanced_close', 'op_at_start', 'op_at_end', 'double_op',
-             'infix_after_simple_ctx', 'empty_parens', 'missing_operand_after_not', 'op_typo_in_chain']
+             'infix_after_simple_ctx', 'empty_parens', 'missing_operand_after_not', 'op_typo_in_chain',
+             'quoted_operator']
 
 
 def cases(tier, seed):
@@ -752,6 +753,14 @@ def _mutate(toks, defect, rng, is_tr):
             return None
         t.append('&&')
         t.append('!')
+    elif defect == 'quoted_operator':
+        # an operator, `!` or a parenthesis written inside quotes is a string, not that operator: the expression is
+        # no longer one of the grammar
+        if not struct:
+            return None
+        i = rng.choice(struct)
+        q = rng.choice(("'", '"'))
+        t[i] = q + t[i] + q
     elif defect == 'infix_after_simple_ctx':
         return 'ctx'
     return t
